@@ -73,9 +73,18 @@ def feed(ctx, b, cuts):
     q = deque()
     got = []
     pos = [0] + list(cuts) + [len(b)]
+    handed = []
     for a, z in zip(pos, pos[1:]):
-        q.append(ctx.bytes_of(b[a:z], mutable=True))
-        got += parse_space_packets(q, ids())
+        chunk = ctx.bytes_of(b[a:z], mutable=True)
+        q.append(chunk)
+        handed.append(chunk)
+        for pkt in parse_space_packets(q, ids()):
+            got.append(ctx.bytes_of(items_of(pkt)))      # what the caller sees at return time
+        # the caller re-uses its receive buffers once the parser has returned: neither the queue's tail nor later
+        # results may depend on them any more
+        for ch in handed:
+            for i in range(len(ch)):
+                ch[i] = 0xEE
     return got, q
 
 
